@@ -354,6 +354,9 @@ public:
         // Per POSIX:
         // > if multiple patches are applied to the same file, the .orig file will be written only for the first patch
         if (m_backed_up_files.emplace(backup_file).second) {
+            // A prefix may put the backup in a directory of its own.
+            ensure_parent_directories(backup_file);
+
             // If the output file being backed up exists, rename name that as the backup.
             // For a missing output file just create an empty backup file instead.
             if (filesystem::exists(file_path))
